@@ -4,6 +4,7 @@ it was written for, and nothing else - for every tree (no bound on size or depth
 node test classification `qn`.
 -/
 import XmlDiffModel.Model.Path
+import XmlDiffModel.Proofs.Tree
 
 namespace XmlDiffModel
 
@@ -168,5 +169,89 @@ theorem forceLastIdx_last (p : Path) (h : p ≠ []) :
       | c :: d, _ =>
         rw [hfr] at hs1
         simpa [List.getLast?_cons_cons] using hs1
+
+/-! ### the selected node is the one `find` returns -/
+
+mutual
+  theorem pathT_none_find (qn : QName) (i : Nat) (pre post : List Tree) (t : Tree)
+      (h : pathT qn i pre post t = none) : Tree.find i t = none := by
+    apply Tree.find_none
+    intro hm
+    obtain ⟨p, hp⟩ := pathT_exists qn i pre post t hm
+    rw [h] at hp; cases hp
+end
+
+/-- `PathGood` with the selected node identified as `find`'s result. -/
+def PathFind (qn : QName) (i : Nat) (forest : List Tree) (path : Path) (sub : Tree) : Prop :=
+  path ≠ [] ∧ resolveL qn path forest = [sub] ∧ resolveL qn (forceLastIdx path) forest = [sub]
+
+mutual
+  theorem pathT_find (qn : QName) (i : Nat) (pre post : List Tree) (t : Tree) (path : Path)
+      (h : pathT qn i pre post t = some path) :
+      ∃ sub, Tree.find i t = some sub ∧ PathFind qn i (pre ++ t :: post) path sub := by
+    match t with
+    | .node j p ks =>
+      unfold pathT at h
+      split at h
+      · next hj =>
+        cases h
+        refine ⟨.node j p ks, by simp [Tree.find, hj], by simp, ?_, ?_⟩
+        · rw [resolveL_single]; exact resolveStep_stepOf qn pre post _
+        · simp only [forceLastIdx, resolveL_single]
+          exact resolveStep_force qn _ _ _ (resolveStep_stepOf qn pre post _)
+      · next hj =>
+        split at h
+        · next rest hrest =>
+          cases h
+          obtain ⟨sub, hfind, hne, h1, h2⟩ := pathL_find qn i [] ks rest hrest
+          simp only [List.nil_append] at h1 h2
+          have hstep := resolveStep_stepOf qn pre post (.node j p ks)
+          refine ⟨sub, by simp [Tree.find, hj, hfind], ?_⟩
+          match rest, hne with
+          | st' :: rest', _ =>
+            refine ⟨by simp, ?_, ?_⟩
+            · rw [resolveL_cons_cons, hstep]
+              simp [Tree.kids, h1]
+            · have hf : forceLastIdx (stepOf qn pre (.node j p ks) post :: st' :: rest') =
+                  stepOf qn pre (.node j p ks) post :: forceLastIdx (st' :: rest') := by
+                simp [forceLastIdx]
+              rw [hf]
+              have hne' := forceLastIdx_ne_nil (st' :: rest') (by simp)
+              match hfr : forceLastIdx (st' :: rest'), hne' with
+              | a :: b, _ =>
+                rw [resolveL_cons_cons, hstep]
+                rw [hfr] at h2
+                simp [Tree.kids, h2]
+        · cases h
+  theorem pathL_find (qn : QName) (i : Nat) (pre ks : List Tree) (path : Path)
+      (h : pathL qn i pre ks = some path) :
+      ∃ sub, Tree.findL i ks = some sub ∧ PathFind qn i (pre ++ ks) path sub := by
+    match ks with
+    | [] => simp [pathL] at h
+    | t :: ts =>
+      unfold pathL at h
+      split at h
+      · next p hp =>
+        simp only [Option.some.injEq] at h
+        subst h
+        obtain ⟨sub, hf, hg⟩ := pathT_find qn i pre ts t _ hp
+        exact ⟨sub, by simp [Tree.findL, hf], hg⟩
+      · next hnone =>
+        obtain ⟨sub, hf, hg⟩ := pathL_find qn i (pre ++ [t]) ts path h
+        refine ⟨sub, ?_, by simpa using hg⟩
+        simp [Tree.findL, pathT_none_find qn i pre ts t hnone, hf]
+end
+
+/-- `getpath` of node `i` resolves to exactly the subtree `find i` returns. -/
+theorem getpath_resolve_find (qn : QName) (t : Tree) (i : Nat) (p : Path)
+    (h : getpath qn t i = some p) : ∃ sub, Tree.find i t = some sub ∧ resolve qn t p = [sub] := by
+  unfold getpath at h
+  cases hp : pathT qn i [] [] t with
+  | none => simp [hp] at h
+  | some path =>
+    simp only [hp, Option.map_some, Option.some.injEq] at h
+    subst h
+    obtain ⟨sub, hf, _, _, h2⟩ := pathT_find qn i [] [] t path hp
+    exact ⟨sub, hf, by simpa [resolve] using h2⟩
 
 end XmlDiffModel
